@@ -262,16 +262,6 @@ package node
 //@   ensures !isRejectErr(result)
 //@   ensures result == nil ==> balNonNeg(Lbal)
 //@
-//@ func (*Pegnetd).GetAssetRates
-//@   trusted
-//@   pure
-//@   ensures !isRejectErr(result1)
-//@
-//@ func (*Pegnetd).GetAssetRatesV0
-//@   trusted
-//@   pure
-//@   ensures !isRejectErr(result1)
-//@
 //@ func (*Pegnetd).SyncBank
 //@   trusted
 //@   modifies LbankPresent, LbankAmt, LbankUsed, LbankReq
@@ -426,3 +416,46 @@ package node
 //@ site-requires (*Pegnetd).SnapshotPayouts | conversions.Convert | 1
 //@   requires @valuation_inputs i != fat2.PTickerPEG && validTicker(i) && amount == bal.Balances[i] && bal.Balances[i] != 0 && fromRate == rates[i] && fromAvg == rates[i] && toRate == rates[fat2.PTickerUSD] && toAvg == rates[fat2.PTickerUSD]
 //@   requires @zero_rates_skipped height >= config.V202EnhanceActivation ==> rates[i] != 0 && rates[fat2.PTickerUSD] != 0
+//@
+//@ // ---- rate selection under the tolerance band (C12) --------------------------------------------------
+//@ // the float64 operations (+ - * and comparisons, IEEE-754 binary64 RNE) are those of the code; uint64->float64 is an
+//@ // uninterpreted function, and so are + - * <= >= on float64, in these two glue proofs (floatconv abstract): the proof compares
+//@ // the structure of the band test (which operands, which constants, which branch) with the specification
+//@ spec func inBand(o int, s int, tol float64) bool = float64(o) >= float64(s) * (f64("1") - tol) && float64(o) <= float64(s) * (f64("1") + tol)
+//@ spec func tolAt(h int) float64 = h >= config.V202EnhanceActivation ? f64("0.25") : f64("0.1")
+//@ spec func tolV0(s int) float64 = s >= 100000 ? f64("0.001") : f64("0.01")
+//@
+//@ func (*Pegnetd).GetAssetRates
+//@   props C12
+//@   floatconv abstract
+//@   ensures @opr_only oprWinners != nil && sprWinners == nil ==> result1 == nil && result0 == oprWinners
+//@   ensures @spr_only oprWinners == nil && sprWinners != nil ==> result1 == nil && result0 == sprWinners
+//@   ensures @none oprWinners == nil && sprWinners == nil ==> result1 != nil
+//@   ensures @different_lengths oprWinners != nil && sprWinners != nil && len(oprWinners) != len(sprWinners) ==> result1 != nil
+//@   ensures @band_rule_aligned oprWinners != nil && sprWinners != nil && result1 == nil && (forall i int :: 0 <= i && i < len(oprWinners) ==> oprWinners[i].Name == sprWinners[i].Name) ==> len(result0) == len(oprWinners) && (forall j int :: 0 <= j && j < len(oprWinners) ==> (inBand(oprWinners[j].Value, sprWinners[j].Value, tolAt(height)) ==> result0[j].Name == oprWinners[j].Name && result0[j].Value == oprWinners[j].Value) && (!inBand(oprWinners[j].Value, sprWinners[j].Value, tolAt(height)) ==> height >= config.V202EnhanceActivation && result0[j].Name == sprWinners[j].Name && result0[j].Value == 0))
+//@   ensures @out_of_band_is_an_error_before_2_0_2 oprWinners != nil && sprWinners != nil && len(oprWinners) == len(sprWinners) && height < config.V202EnhanceActivation && (exists i int :: 0 <= i && i < len(oprWinners) && oprWinners[i].Name == sprWinners[i].Name && !inBand(oprWinners[i].Value, sprWinners[i].Value, tolAt(height))) ==> result1 != nil
+//@   ensures @no_error_from_2_0_2 oprWinners != nil && sprWinners != nil && len(oprWinners) == len(sprWinners) && height >= config.V202EnhanceActivation ==> result1 == nil
+//@   ensures @error_is_not_a_reject_code !isRejectErr(result1)
+//@   modifies nothing
+//@   loop 1 invariant @range 0 <= iter && iter <= len(oprWinners) && len(oprWinners) == len(sprWinners) && (len(filteredRates) == 0 || fresh(filteredRates))
+//@   loop 1 invariant @band_rule_aligned (forall i int :: 0 <= i && i < iter ==> oprWinners[i].Name == sprWinners[i].Name) ==> len(filteredRates) == iter && (forall j int :: 0 <= j && j < iter ==> (inBand(oprWinners[j].Value, sprWinners[j].Value, tolAt(height)) ==> filteredRates[j].Name == oprWinners[j].Name && filteredRates[j].Value == oprWinners[j].Value) && (!inBand(oprWinners[j].Value, sprWinners[j].Value, tolAt(height)) ==> height >= config.V202EnhanceActivation && filteredRates[j].Name == sprWinners[j].Name && filteredRates[j].Value == 0))
+//@   loop 1 invariant @bounded len(filteredRates) <= iter
+//@   loop 1 invariant @no_violation_so_far height < config.V202EnhanceActivation ==> (forall i int :: 0 <= i && i < iter && oprWinners[i].Name == sprWinners[i].Name ==> inBand(oprWinners[i].Value, sprWinners[i].Value, tolAt(height)))
+//@   loop 1 preserves old
+//@
+//@ func (*Pegnetd).GetAssetRatesV0
+//@   props C12
+//@   floatconv abstract
+//@   ensures @opr_only len(oprWinners) > 0 && len(sprWinners) == 0 ==> result1 == nil && result0 == oprWinners
+//@   ensures @spr_only len(oprWinners) == 0 && len(sprWinners) > 0 ==> result1 == nil && result0 == sprWinners
+//@   ensures @none len(oprWinners) == 0 && len(sprWinners) == 0 ==> result1 != nil
+//@   ensures @different_lengths len(oprWinners) > 0 && len(sprWinners) > 0 && len(oprWinners) != len(sprWinners) ==> result1 != nil
+//@   ensures @band_rule_aligned len(oprWinners) > 0 && len(sprWinners) > 0 && result1 == nil && (forall i int :: 0 <= i && i < len(oprWinners) ==> oprWinners[i].Name == sprWinners[i].Name) ==> len(result0) == len(oprWinners) && (forall j int :: 0 <= j && j < len(oprWinners) ==> inBand(oprWinners[j].Value, sprWinners[j].Value, tolV0(sprWinners[j].Value)) && result0[j].Name == oprWinners[j].Name && result0[j].Value == oprWinners[j].Value)
+//@   ensures @out_of_band_is_an_error len(oprWinners) > 0 && len(oprWinners) == len(sprWinners) && (exists i int :: 0 <= i && i < len(oprWinners) && oprWinners[i].Name == sprWinners[i].Name && !inBand(oprWinners[i].Value, sprWinners[i].Value, tolV0(sprWinners[i].Value))) ==> result1 != nil
+//@   ensures @error_is_not_a_reject_code !isRejectErr(result1)
+//@   modifies nothing
+//@   loop 1 invariant @range 0 <= iter && iter <= len(oprWinners) && len(oprWinners) == len(sprWinners) && (len(filteredRates) == 0 || fresh(filteredRates))
+//@   loop 1 invariant @band_rule_aligned (forall i int :: 0 <= i && i < iter ==> oprWinners[i].Name == sprWinners[i].Name) ==> len(filteredRates) == iter && (forall j int :: 0 <= j && j < iter ==> filteredRates[j].Name == oprWinners[j].Name && filteredRates[j].Value == oprWinners[j].Value)
+//@   loop 1 invariant @bounded len(filteredRates) <= iter
+//@   loop 1 invariant @no_violation_so_far forall i int :: 0 <= i && i < iter && oprWinners[i].Name == sprWinners[i].Name ==> inBand(oprWinners[i].Value, sprWinners[i].Value, tolV0(sprWinners[i].Value))
+//@   loop 1 preserves old
